@@ -15,14 +15,18 @@ import gal
 import streams_common as sc
 
 GEN = []
-RULE = ("corpus; per-function grid (each streaming function alone over the endless source, every integer argument in "
+RULE = ("the source reaches the query in 11 ways (one-shot iterator or RE-ITERABLE lazy object; as $ / inside the data document / "
+        "context variable / result of a registered host function; yaql.convertInputData on and off), a fixed set of pipelines "
+        "through all of them and every other case through one of them in rotation; corpus; per-function grid (each streaming function alone over the endless source, every integer argument in "
         "[-3, 6], k in 0..5); seeded random typed pipelines of 1..4 streaming functions, start value in [-3, 3], "
         "k in 0..8; pipelines ending in first/any/all/indexOf/indexWhere/contains; non-trivial = at least one result "
         "requested and at least one function; distinct = distinct (start, stages, k)")
 TRUSTED = ["Model/Streams.v: hand transcription of the lazy objects of queries.py / collections.py / utils.py; tied by this "
            "correspondence (values, pulls and lambda applications compared by vm_compute inside Coq)",
            "the instrumented source and the tick probe of harness/props/c14.py (counting is by the harness)"]
-ASSUMPTIONS = ["lambda bodies come from the generated family and are applied to integers / pairs they are defined on",
+ASSUMPTIONS = ["the way a lazy source is handed to the query (data, document member, context variable, host function result, "
+               "with or without input conversion, iterator or re-iterable) does not enter the model: the consumption must be the same",
+               "lambda bodies come from the generated family and are applied to integers / pairs they are defined on",
                "a pipeline needing more than CAP = 200 source elements for its first k results is recorded as such on both "
                "sides and not compared further"]
 EXPLANATION = ("Coq proofs of the demand of each streaming operator and of their composition along a pipeline (exact pull and "
@@ -55,24 +59,73 @@ class Source:
         return {"a": v, "b": 0} if self.records else v
 
 
-def text_of(stages, k):
-    t = sc.pipeline_text("$", stages, probe=True)
+class Feed:
+    """the same endless source as a RE-ITERABLE object (a cursor / paginated result): no __next__, every
+    __iter__ starts a fresh lazy generator; all pulls are counted on the one object and capped"""
+
+    def __init__(self, k0, records=False):
+        self.k0, self.pulls, self.records = k0, 0, records
+
+    def __iter__(self):
+        i = 0
+        while True:
+            self.pulls += 1
+            if self.pulls > CAP:
+                raise PullCap()
+            v = self.k0 + i
+            i += 1
+            yield {"a": v, "b": 0} if self.records else v
+
+
+# how the source reaches the query: (root expression, iterator or re-iterable, where it is put, input conversion)
+MODES = {
+    "data-iter": ("$", "iter", "data", True),            # one-shot iterator as $ (default conversion)
+    "data-feed": ("$", "feed", "data", True),            # re-iterable lazy object as $ (default conversion)
+    "doc-iter": ("$.src", "iter", "doc", True),          # inside the data document
+    "doc-feed": ("$.src", "feed", "doc", True),
+    "var-iter": ("$feed", "iter", "var", True),          # context variable
+    "var-feed": ("$feed", "feed", "var", True),
+    "fn-iter": ("feed()", "iter", "fn", True),           # result of a registered host function
+    "fn-feed": ("feed()", "feed", "fn", True),
+    "raw-iter": ("$", "iter", "data", False),            # yaql.convertInputData = False
+    "raw-feed": ("$", "feed", "data", False),
+    "rawdoc-feed": ("$.src", "feed", "doc", False),
+}
+MODE_NAMES = sorted(MODES)
+
+
+def text_of(stages, k, mode="data-iter"):
+    t = sc.pipeline_text(MODES[mode][0], stages, probe=True)
     return t if k is None else "%s.take(%d)" % (t, k)
 
 
-def observe(k0, stages, k):
-    """-> (observation, pulls, ticks total, ticks per lambda, yaql text)"""
+def _run_once(k0, stages, k, mode, timeout):
+    root, shape, where, conv = MODES[mode]
     recs = bool(stages) and stages[0][0] == "attr"      # member projection: the source yields records {a: n, b: 0}
-    src = Source(k0, recs)
+    src = (Source if shape == "iter" else Feed)(k0, recs)
     sc.TICKS.clear()
-    text = text_of(stages, k)
+    text = text_of(stages, k, mode)
+    ctx = sc.context().create_child_context()
+    data = None
+    if where == "data":
+        data = src
+    elif where == "doc":
+        data = {"src": src, "other": [1, 2]}
+    elif where == "var":
+        ctx["feed"] = src
+    else:
+        ctx.register_function(lambda: src, name="feed")
+    o = sc.evaluate(text, data, timeout=timeout, ctx=ctx, eng=None if conv else sc.engine_noconv())
+    return o, src, text
+
+
+def observe(k0, stages, k, mode="data-iter"):
+    """-> (observation, pulls, ticks total, ticks per lambda, yaql text)"""
     patient = sc.WATCHDOG_HITS[0] < 3
-    o = sc.evaluate(text, src, timeout=30 if patient else 4)
+    o, src, text = _run_once(k0, stages, k, mode, 30 if patient else 4)
     if patient and o[0] == "err" and o[1] == "EOther" and o[2].startswith("watchdog") and src.pulls <= CAP:
         # no answer although the source was barely touched: machine load, not the pipeline - once more
-        src = Source(k0, recs)
-        sc.TICKS.clear()
-        o = sc.evaluate(text, src, timeout=60)
+        o, src, text = _run_once(k0, stages, k, mode, 60)
         if o[0] == "err" and o[1] == "EOther" and o[2].startswith("watchdog"):
             sc.WATCHDOG_HITS[0] += 1
     ticks = dict(sc.TICKS)
@@ -113,6 +166,21 @@ def grid(run):
         out.append((0, [t], None))
         out.append((-2, [("where", P), t], None))
         out.append((1, [("select", F), ("skip", 2), t], None))
+    return out
+
+
+def delivery_grid(run):
+    """the same few pipelines through EVERY way a source can reach a query: the consumption must not depend on it"""
+    P, F = ("modeq", 2, 0), ("mul", 10)
+    pipes = [([("take", 3)], 3), ([("where", P), ("select", F)], 3), ([("skip", 2), ("enumerate", None)], 2),
+             ([("takeWhile", ("lt", 4))], 6), ([("select", ("add", 1)), ("first", sc.NOSEED)], None),
+             ([("indexWhere", ("gt", 6))], None), ([("any", ("eq", 3))], None),
+             ([("distinct", None), ("skipWhile", ("lt", 2))], 2), ([("attr",), ("where", ("gt", 1))], 2),
+             ([("memorize",), ("accumulate", ("add2",), sc.NOSEED)], 3), ([], 2)]
+    out = []
+    for mode in MODE_NAMES:
+        for stages, k in pipes:
+            out.append((0, list(stages), k, mode))
     return out
 
 
@@ -240,11 +308,16 @@ def load_corpus():
     path = os.path.join(HERE, "corpus", "C14.json")
     if not os.path.exists(path):
         return []
-    return [(c["k0"], sc.stages_from_json(c["stages"]), c["k"]) for c in json.load(open(path))]
+    return [(c["k0"], sc.stages_from_json(c["stages"]), c["k"], c.get("mode", "data-iter")) for c in json.load(open(path))]
 
 
-def describe(k0, stages, k, o, pulls, ticks, text):
-    return {"yaql": text, "source": "instrumented endless iterator %d, %d, ..." % (k0, k0 + 1), "k0": k0,
+def describe(k0, stages, k, o, pulls, ticks, text, mode="data-iter"):
+    root, shape, where, conv = MODES[mode]
+    return {"yaql": text, "source": "instrumented endless %s %d, %d, ... handed over as %s (%s), yaql.convertInputData=%s" % (
+                "one-shot iterator" if shape == "iter" else "RE-ITERABLE lazy object (no __next__; __iter__ starts a fresh generator)",
+                k0, k0 + 1, root, {"data": "the query data", "doc": "a member of the data document", "var": "a context variable",
+                                   "fn": "the result of a registered host function"}[where], conv),
+            "mode": mode, "k0": k0,
             "stages": sc.stages_json(stages), "k": k, "observed": repr(o), "pulls": pulls, "ticks": ticks}
 
 
@@ -273,17 +346,20 @@ def correspondence(run):
     run.cov["uncovered"] = unc
     print("[C14] streaming functions in scope: %d, exercised: %d, NOT modelled (reported as uncovered): %s" % (
         len(SCOPE), len([k for k in SCOPE.values() if k]), ", ".join(unc) or "-"), flush=True)
-    todo = list(load_corpus()) + grid(run)
+    todo = list(load_corpus()) + delivery_grid(run)
+    for j, (k0, stages, k) in enumerate(grid(run)):
+        todo.append((k0, stages, k, MODE_NAMES[j % len(MODE_NAMES)]))
     for _ in range(run.n(2500, 40000)):
-        todo.append(gen_case(run.rng))
+        todo.append(gen_case(run.rng) + (run.rng.choice(MODE_NAMES),))
     cases, meta = [], []
     nfixed = len(todo) - run.n(2500, 40000)
-    for j, (k0, stages, k) in enumerate(todo):
-        o, pulls, ticks, per, text = observe(k0, stages, k)
+    for j, (k0, stages, k, mode) in enumerate(todo):
+        o, pulls, ticks, per, text = observe(k0, stages, k, mode)
         if j >= nfixed and o[0] == "cap" and run.rng.random() < 0.8:
             run.count("dropped:most pipelines that never produce k results (cap) are not kept")
             continue
-        run.case((k0, sc.stages_json(stages), k), nontrivial=bool(stages) and (k is None or k > 0))
+        run.case((k0, sc.stages_json(stages), k, mode), nontrivial=bool(stages) and (k is None or k > 0))
+        run.count("delivery:" + mode)
         run.count("stages:%d" % len(stages))
         run.count("k:%s" % k)
         for s in stages:
@@ -291,21 +367,22 @@ def correspondence(run):
         run.count("result:" + (o[1] if o[0] == "err" else o[0]))
         run.count("pulls:%s" % ("0" if pulls == 0 else "1-5" if pulls <= 5 else "6-20" if pulls <= 20 else ">20"))
         if len(cases) % 397 == 0:
-            run.sample({"yaql": text, "start": k0, "observed": repr(o), "pulls": pulls, "ticks": ticks})
+            run.sample({"yaql": text, "start": k0, "delivery": mode, "observed": repr(o), "pulls": pulls, "ticks": ticks})
         cases.append(kcase_term(k0, stages, k, o, pulls, ticks))
-        meta.append((k0, stages, k, o, pulls, ticks, per, text))
+        meta.append((k0, stages, k, o, pulls, ticks, per, text, mode))
     run.meta = meta
     bad = run.coq_mismatches(sc.HEADER, "kcase", "kcase_ok", cases, shard=400)
     seen = set()
     for i in bad:
-        k0, stages, k, o, pulls, ticks, per, text = meta[i]
-        fns = "/".join(s[0] for s in stages)
+        k0, stages, k, o, pulls, ticks, per, text, mode = meta[i]
+        fns = "/".join(s[0] for s in stages) + " [source delivered as %s]" % mode
         if fns in seen or len(seen) >= 6:
             continue
         seen.add(fns)
-        k0, stages, k = shrink(run, k0, stages, k)
-        o, pulls, ticks, per, text = observe(k0, stages, k)
-        d = describe(k0, stages, k, o, pulls, ticks, text)
+        k0, stages, k = shrink(run, k0, stages, k, mode)
+        o, pulls, ticks, per, text = observe(k0, stages, k, mode)
+        fns = "/".join(s[0] for s in stages) + " [source delivered as %s]" % mode
+        d = describe(k0, stages, k, o, pulls, ticks, text, mode)
         d["model (state, result)"] = model_of(run, k0, stages, k)
         nd = need_of(k0, [s for s in stages], k) if k is not None else None
         d["need"] = None if nd is None else nd[0]
@@ -318,16 +395,17 @@ def correspondence(run):
         run.note("%d disagreeing cases in total" % len(bad))
 
 
-def shrink(run, k0, stages, k):
+def shrink(run, k0, stages, k, mode="data-iter"):
     for _ in range(3):
-        cands = [(k0, stages[:j] + stages[j + 1:], k) for j in range(len(stages)) if len(stages) > 1]
+        cands = [(k0, stages[:j] + stages[j + 1:], k) for j in range(len(stages)) if len(stages) > 1
+                 and not (j == 0 and stages[0][0] == "attr") and not (k is None and j == len(stages) - 1)]
         if k is not None and k > 1:
             cands += [(k0, stages, 1), (k0, stages, k - 1)]
         if not cands:
             break
         terms = []
         for c in cands:
-            o, pulls, ticks, per, text = observe(*c)
+            o, pulls, ticks, per, text = observe(c[0], c[1], c[2], mode)
             terms.append(kcase_term(c[0], c[1], c[2], o, pulls, ticks))
         try:
             bad = run.coq_mismatches(sc.HEADER, "kcase", "kcase_ok", terms, shard=400)
@@ -346,10 +424,11 @@ def oracle(run, deep):
     if deep:
         for _ in range(run.n(1500, 10000)):
             k0, stages, k = gen_case(run.rng)
-            o, pulls, ticks, per, text = observe(k0, stages, k)
-            extra.append((k0, stages, k, o, pulls, ticks, per, text))
+            mode = run.rng.choice(MODE_NAMES)
+            o, pulls, ticks, per, text = observe(k0, stages, k, mode)
+            extra.append((k0, stages, k, o, pulls, ticks, per, text, mode))
     checked = 0
-    for k0, stages, k, o, pulls, ticks, per, text in list(meta) + extra:
+    for k0, stages, k, o, pulls, ticks, per, text, mode in list(meta) + extra:
         if o[0] == "err":
             continue            # an error was raised (and agreed with the model in C): the twin of `need` is about results
         if k is None:
@@ -360,7 +439,7 @@ def oracle(run, deep):
             checked += 1
             run.count("oracle:search")
             if o[0] == "cap" or pulls != nd:
-                d = describe(k0, stages, k, o, pulls, ticks, text)
+                d = describe(k0, stages, k, o, pulls, ticks, text, mode)
                 d.update({"required": "the source is pulled exactly up to the deciding element: %d pulls" % nd})
                 run.fail("violation", "%s: short-circuit search consumed %s elements instead of exactly %d" % (
                     stages[-1][0], "more than %d" % CAP if o[0] == "cap" else pulls, nd), d)
@@ -372,7 +451,7 @@ def oracle(run, deep):
         checked += 1
         run.count("oracle:bound")
         if o[0] == "cap" or pulls > need + 1:
-            d = describe(k0, stages, k, o, pulls, ticks, text)
+            d = describe(k0, stages, k, o, pulls, ticks, text, mode)
             d.update({"need": need, "required": "pulls <= need + 1 = %d" % (need + 1)})
             run.fail("violation", "%s: %s source elements consumed for the first %d results, need is %d" % (
                 "/".join(s[0] for s in stages), "more than %d" % CAP if o[0] == "cap" else pulls, k, need), d)
@@ -383,7 +462,7 @@ def oracle(run, deep):
             for _ in range(nl):
                 lam_id += 1
                 if per.get(lam_id, 0) > dem + 1:
-                    d = describe(k0, stages, k, o, pulls, ticks, text)
+                    d = describe(k0, stages, k, o, pulls, ticks, text, mode)
                     d.update({"lambda": lam_id, "applications": per.get(lam_id, 0), "required": "<= %d" % (dem + 1)})
                     run.fail("violation", "%s: lambda applied %d times, its operator consumed only %d elements" % (
                         sg[0], per.get(lam_id, 0), dem), d)
@@ -426,12 +505,12 @@ def search_need(k0, stages):
 
 def replay(run, data):
     d = data["data"]
-    k0, stages, k = d["k0"], sc.stages_from_json(d["stages"]), d["k"]
+    k0, stages, k, mode = d["k0"], sc.stages_from_json(d["stages"]), d["k"], d.get("mode", "data-iter")
     sc.context()
-    o, pulls, ticks, per, text = observe(k0, stages, k)
+    o, pulls, ticks, per, text = observe(k0, stages, k, mode)
     if run.coq_mismatches(sc.HEADER, "kcase", "kcase_ok", [kcase_term(k0, stages, k, o, pulls, ticks)]):
         return False
-    run.meta = [(k0, stages, k, o, pulls, ticks, per, text)]
+    run.meta = [(k0, stages, k, o, pulls, ticks, per, text, mode)]
     before = len(run.failures)
     oracle(run, False)
     return len(run.failures) == before
